@@ -53,7 +53,9 @@ def strategy(tier):
         else:
             mxy, mz = (5, 5) if big else (6, 3)
             nel = [draw(st.integers(1, mxy)), draw(st.integers(1, mxy)), draw(st.integers(1, mz))]
-        un = draw(st.one_of(st.just([1.0, 1.0, 1.0]), st.tuples(unit, unit, unit).map(list)))
+        iunit = st.integers(1, 3)     # integer-typed element sizes (DomainDefinition(2, 2, unitx=2, unity=1, unitz=1))
+        un = draw(st.one_of(st.just([1.0, 1.0, 1.0]), st.tuples(unit, unit, unit).map(list),
+                            st.tuples(unit, unit, unit).map(list), st.tuples(iunit, iunit, iunit).map(list)))
         kind = draw(st.sampled_from(["general", "stiffness", "mass", "poisson"]))
         if kind in ("general", "mass"):
             ndof = draw(st.integers(1, 3))
